@@ -30,6 +30,9 @@ import (
 // must treat as a write and which changes nothing.
 const noopWrite = "DELETE FROM t1 WHERE 0"
 
+// numbers of the guard-off texts start here (ordinary texts are numbered from 0)
+const guardBase = 1000000
+
 type nodeState struct {
 	DBHash    string `json:"db_hash"`
 	WALHash   string `json:"wal_hash"`
@@ -344,6 +347,19 @@ func classify(n *hcluster.Node, sqls []string) string {
 	return sb.String()
 }
 
+// items returns the elements of the request array for text t.
+func items(t *Text) []any {
+	var out []any
+	for _, p := range t.Pre {
+		out = append(out, p)
+	}
+	return append(out, item(t))
+}
+
+func sqls(t *Text) []string {
+	return append(append([]string{}, t.Pre...), t.SQL)
+}
+
 func item(t *Text) any {
 	if len(t.Params) == 0 {
 		return t.SQL
@@ -378,8 +394,8 @@ func (h *harness) run(t *Text, c Combo) ReqResult {
 	var body []byte
 	hdr := map[string]string{}
 	ep := c.EP
-	if ep == "qget" && len(t.Params) > 0 {
-		ep = "qpost" // parameters need a body
+	if ep == "qget" && (len(t.Params) > 0 || len(t.Pre) > 0) {
+		ep = "qpost" // parameters and several statements need a body
 	}
 	switch ep {
 	case "qget":
@@ -387,19 +403,19 @@ func (h *harness) run(t *Text, c Combo) ReqResult {
 		res.Judged, res.Why = true, "query endpoint"
 	case "qpost":
 		method, path = "POST", "/db/query"+q
-		if len(t.Params) == 0 && (t.No+len(t.SQL))%4 == 0 {
+		if len(t.Params) == 0 && len(t.Pre) == 0 && (t.No+len(t.SQL))%4 == 0 {
 			body = []byte(t.SQL)
 			hdr["Content-Type"] = "text/plain"
 			h.counts["req:query-text-plain"]++
 		} else {
-			body, _ = json.Marshal([]any{item(t)})
+			body, _ = json.Marshal(items(t))
 		}
 		res.Judged, res.Why = true, "query endpoint"
 	case "request":
 		method, path = "POST", "/db/request"+q
-		body, _ = json.Marshal([]any{item(t)})
-		res.Classes = classify(l, []string{t.SQL})
-		if res.Classes == "R" {
+		body, _ = json.Marshal(items(t))
+		res.Classes = classify(l, sqls(t))
+		if res.Classes == strings.Repeat("R", len(t.Pre)+1) {
 			res.Judged, res.Why = true, "unified request, the statement is treated as read-only"
 		} else {
 			res.Why = "unified request, the statement is treated as a write"
@@ -407,13 +423,13 @@ func (h *harness) run(t *Text, c Combo) ReqResult {
 	case "mixed":
 		method, path = "POST", "/db/request"+q
 		if t.No%2 == 0 {
-			body, _ = json.Marshal([]any{noopWrite, item(t)})
-			res.Classes = classify(l, []string{noopWrite, t.SQL})
+			body, _ = json.Marshal(append([]any{noopWrite}, items(t)...))
+			res.Classes = classify(l, append([]string{noopWrite}, sqls(t)...))
 		} else {
-			body, _ = json.Marshal([]any{item(t), noopWrite})
-			res.Classes = classify(l, []string{t.SQL, noopWrite})
+			body, _ = json.Marshal(append(items(t), noopWrite))
+			res.Classes = classify(l, append(sqls(t), noopWrite))
 		}
-		if strings.Count(res.Classes, "W") == 1 && strings.Count(res.Classes, "R") == 1 {
+		if strings.Count(res.Classes, "W") == 1 && strings.Count(res.Classes, "R") == len(t.Pre)+1 {
 			res.Judged, res.Why = true, "unified request, the statement is treated as read-only next to the harness's own no-op write"
 		} else {
 			res.Why = "unified request, the statement is treated as a write"
@@ -559,7 +575,7 @@ func (h *harness) topUp(next *int) error {
 	return h.rebaseline()
 }
 
-// worker args: lo hi seed tier dir ncombos   |   replay <file> dir
+// worker args: lo hi seed tier dir ncombos nguard   |   replay <file> dir
 func worker(args []string) {
 	enc := json.NewEncoder(os.Stdout)
 	var texts []Text
@@ -585,7 +601,7 @@ func worker(args []string) {
 		combos = [][]Combo{{f.Case.Req.Combo}}
 		dir = args[2]
 	} else {
-		var lo, hi, nc int
+		var lo, hi, nc, ng int
 		var seed int64
 		fmt.Sscan(args[0], &lo)
 		fmt.Sscan(args[1], &hi)
@@ -593,10 +609,30 @@ func worker(args []string) {
 		fmt.Sscan(args[5], &nc)
 		dir = args[4]
 		c := &vf.Ctx{ID: "C17", Seed: seed, Tier: args[3]}
+		if len(args) > 6 {
+			fmt.Sscan(args[6], &ng)
+		}
+		// ng guard-off texts (numbered guardBase+lo+j) are spread evenly between the
+		// batch's ordinary texts, so that whatever they leave behind on a pooled
+		// connection meets the ordinary texts that follow
+		every, g := 0, 0
+		if ng > 0 {
+			every = (hi - lo) / (ng + 1)
+			if every < 1 {
+				every = 1
+			}
+		}
 		for i := lo; i < hi; i++ {
 			r := c.Rand(uint64(i))
 			texts = append(texts, genText(r, i, filepath.Join(dir, "att")))
 			combos = append(combos, pickCombos(r, nc))
+			if g < ng && (i-lo+1)%every == 0 {
+				no := guardBase + lo + g
+				gr := c.Rand(uint64(no))
+				texts = append(texts, genGuardText(gr, no))
+				combos = append(combos, pickCombos(gr, nc))
+				g++
+			}
 		}
 	}
 	os.MkdirAll(dir, 0755)
